@@ -137,6 +137,12 @@ func checkEnc(w *h.Worker, e encode.Encoder, v interface{}, want []byte, eq func
 			return
 		}
 		c15SetPrev(w, e, &c15Prev{e: e, enc: enc, cp: append([]byte{}, enc...), v: brief(v)})
+		// ... and the caller may append to it (a record is often built by appending
+		// further fields to an encoding): spare capacity must be the caller's too
+		if cap(enc) > len(enc) {
+			ext := append(enc, 0xa5, 0x5a, 0xc3)
+			_ = ext
+		}
 		if !bytes.Equal(enc, want) {
 			msg = fmt.Sprintf("Encode(%v) = %x, reference layout %x", brief(v), cut(enc), cut(want))
 			return
